@@ -656,6 +656,7 @@ def c17(tier, seed):
         if hs[0] is None or hs[1] is None:
             continue
         snaps = [snapshot(h) for h in hs]
+        listed0 = [set(genomes_of(h)) for h in hs]
         held = []          # (call index, function that renders the RETURNED OBJECT again)
         taxa = sorted(p for p, g in genomes_of(hs[0]).items() if g.genes)
         tids = sorted(hs[0].get_dict_top_level_hogs())
@@ -756,6 +757,16 @@ def c17(tier, seed):
             keep = []
             outs.append(run_op(hs[op[0]], op, keep))
             held += [(i, f) for f in keep]
+        listings = [','.join(sorted(taxS(p) for p in genomes_of(h))) for h in hs]      # taxa carrying a genome now
+        # the only permitted side effect (theorem C17_listing): what was listed stays listed, what is new is empty
+        for i, h in enumerate(hs):
+            now = genomes_of(h)
+            if not listed0[i] <= set(now):
+                bad.append('analysis %d: a genome that was listed after loading is no longer listed' % i)
+            for p_, g_ in now.items():
+                if p_ not in listed0[i] and len(g_.genes) != 0:
+                    bad.append('analysis %d: the genome that appeared at %s during the calls is not empty' % (i, taxS(p_)))
+            ex.res.count('genomes_created_lazily', len(set(now) - listed0[i]))
         # a result that was handed out must not change when later calls are made (no aliasing of returned objects)
         for i, f in held:
             try:
@@ -815,6 +826,7 @@ def c17(tier, seed):
                 so = ob.Obs(); so.put('load', 'ok')
                 for i, x in enumerate(pyo):
                     so.put('session', '%d:%s' % (i, x))
+                so.put('listing', listings[w])
                 ex.res.count('session_ops_replayed_by_model', len(sops))
                 ex.submit('%s-s%d' % (cid, w), D, so.tags, ['load', 'session'], queries=['(session %s)' % ' '.join(sops)], hist=False)
         # correspondence: every comparison / profile output equals the model's pure function value
